@@ -30,6 +30,8 @@ struct Gen<'a, R: RoleType, T: IsPacketId> {
     boundary: bool,              // publishes are sized around the peer's Maximum Packet Size
     plain_pub: bool,             // publishes carry no manual alias / extra properties
     force_sp: Option<bool>,      // Session Present flag of the next CONNACK (either direction)
+    force_rc: Option<u8>,        // return / reason code of the next CONNACK (either direction)
+    force_own_tam: Option<u16>,  // the Topic Alias Maximum WE announce in the next handshake
 }
 
 impl<'a, R: RoleType, T: IsPacketId> Gen<'a, R, T> {
@@ -122,6 +124,13 @@ impl<'a, R: RoleType, T: IsPacketId> Gen<'a, R, T> {
         if self.rng.chance(1, 6) {
             ps.push(P::Pair(b"k".to_vec(), b"v".to_vec()));
         }
+        if for_connack != self.acts_as_client() {
+            // this is our own packet
+            if let Some(t) = self.force_own_tam {
+                ps.retain(|p| !matches!(p, P::U16(34, _)));
+                ps.push(P::U16(34, t));
+            }
+        }
         if for_connack == self.acts_as_client() {
             // this is the peer's packet
             if let Some(m) = self.force_peer_mps {
@@ -157,9 +166,22 @@ impl<'a, R: RoleType, T: IsPacketId> Gen<'a, R, T> {
             }
             let ka = self.ka();
             self.op(format!("send {} {}", v, hex(&w_connect(v, clean, ka, b"cid", &ps))));
+            if v == 5 && self.rng.chance(1, 6) {
+                // extended authentication: AUTH from the server (sizes around our own limit), our answer
+                let n = *self.rng.pick(&[1usize, 10, 60]);
+                let b = w_auth(Some(0x18), Some(&vec![b'm'; n]));
+                self.op(format!("recv {}", hex(&b)));
+                if self.status() == "G" {
+                    let n = *self.rng.pick(&[1usize, 10, 60]);
+                    self.op(format!("send 5 {}", hex(&w_auth(Some(0x18), Some(&vec![b'm'; n])))));
+                }
+            }
+            if self.status() == "D" && force_ok {
+                return;
+            }
             if force_ok || self.rng.chance(9, 10) {
                 let sp = self.force_sp.unwrap_or(!clean && (force_ok || self.rng.chance(2, 3)));
-                let rc = if force_ok || self.rng.chance(9, 10) { 0 } else { *self.rng.pick(&[1u8, 2, 5, 0x80, 0x87]) };
+                let rc = self.force_rc.unwrap_or(if force_ok || self.rng.chance(9, 10) { 0 } else { *self.rng.pick(&[1u8, 2, 5, 0x80, 0x87]) });
                 let ps = self.conn_props(true);
                 self.peer_mps = ps.iter().find_map(|p| if let P::U32(39, m) = p { Some(*m) } else { None });
                 let b = w_connack(v, sp, rc, &ps);
@@ -184,10 +206,19 @@ impl<'a, R: RoleType, T: IsPacketId> Gen<'a, R, T> {
             } else {
                 self.recv(bytes);
             }
+            if self.ver() == 5 && self.status() == "G" && self.rng.chance(1, 6) {
+                // extended authentication before the CONNACK: the client's limit is already known
+                let n = *self.rng.pick(&[1usize, 10, 60]);
+                self.op(format!("send 5 {}", hex(&w_auth(Some(0x18), Some(&vec![b'm'; n])))));
+                if self.status() == "G" {
+                    let n = *self.rng.pick(&[1usize, 10, 60]);
+                    self.op(format!("recv {}", hex(&w_auth(Some(0x18), Some(&vec![b'm'; n])))));
+                }
+            }
             if force_ok || self.rng.chance(9, 10) {
                 let v = self.ver();
                 let sp = self.force_sp.unwrap_or(!clean && (force_ok || self.rng.chance(2, 3)));
-                let rc = if force_ok || self.rng.chance(9, 10) { 0 } else { *self.rng.pick(&[1u8, 2, 5, 0x80, 0x87]) };
+                let rc = self.force_rc.unwrap_or(if force_ok || self.rng.chance(9, 10) { 0 } else { *self.rng.pick(&[1u8, 2, 5, 0x80, 0x87]) });
                 let mut ps = self.conn_props(true);
                 if let Some(rm) = self.force_own_rm {
                     ps.retain(|p| !matches!(p, P::U16(33, _)));
@@ -805,6 +836,8 @@ fn walk<R: RoleType, T: IsPacketId>(role: &'static str, ver: u8, steps: usize, r
         boundary: false,
         plain_pub: false,
         force_sp: None,
+        force_rc: None,
+        force_own_tam: None,
     };
     // options
     for f in ["off", "apr", "aping", "amap", "arep"] {
@@ -898,10 +931,15 @@ fn walk<R: RoleType, T: IsPacketId>(role: &'static str, ver: u8, steps: usize, r
             let on = g.rng.chance(1, 2) as u8;
             g.op(format!("set {f} {on}"));
         }
+        if g.rng.chance(1, 2) {
+            g.op("set off 1".into());
+            g.force_persist = true;
+        }
         g.force_ok = true;
         g.force_peer_tam = Some(*g.rng.pick(&[1u16, 2, 2, 3]));
         g.handshake();
         g.force_ok = false;
+        g.force_persist = false;
         g.force_peer_tam = None;
         let pw = g.pw();
         let ts: [&[u8]; 2] = [b"a", b"b"];
@@ -936,6 +974,33 @@ fn walk<R: RoleType, T: IsPacketId>(role: &'static str, ver: u8, steps: usize, r
             }
             let ps: Vec<P> = alias.map(|a| vec![P::U16(35, a)]).unwrap_or_default();
             g.op(format!("send 5 {}", hex(&w_publish(5, pw, 0, false, false, &topic, 0, &ps, b"x"))));
+        }
+        if g.status() == "C" && g.rng.chance(1, 2) {
+            // the peer binds aliases too; then the transport goes away: no binding of either
+            // direction may be used between the connections or on the next one
+            g.op(format!("recv {}", hex(&w_publish(5, pw, 0, false, false, b"a", 0, &[P::U16(35, 1)], b"y"))));
+            if g.status() == "C" {
+                g.op("closed".into());
+                match g.rng.below(3) {
+                    0 if !bound.is_empty() => {
+                        let (a, _) = bound[0];
+                        let id = g.fresh_id();
+                        g.op(format!("send 5 {}", hex(&w_publish(5, pw, 1, false, false, b"", id, &[P::U16(35, a)], b"z"))));
+                        g.after_send(id);
+                    }
+                    1 => g.op(format!("recv {}", hex(&w_publish(5, pw, 0, false, false, b"", 0, &[P::U16(35, 1)], b"y")))),
+                    _ => {
+                        g.force_ok = true;
+                        g.force_peer_tam = Some(3);
+                        g.handshake();
+                        g.force_ok = false;
+                        g.force_peer_tam = None;
+                        if g.status() == "C" {
+                            g.op(format!("recv {}", hex(&w_publish(5, pw, 0, false, false, b"", 0, &[P::U16(35, 1)], b"y"))));
+                        }
+                    }
+                }
+            }
         }
     }
     if g.legal && g.s.version() == 5 && g.rng.chance(1, 6) {
@@ -989,6 +1054,7 @@ fn walk<R: RoleType, T: IsPacketId>(role: &'static str, ver: u8, steps: usize, r
         g.force_persist = g.rng.chance(2, 3);
         g.force_clean = Some(g.rng.chance(1, 2));
         g.force_own_rm = Some(*g.rng.pick(&[2u16, 10]));
+        g.force_own_tam = Some(2);
         g.handshake();
         g.force_clean = Some(false);
         let mut released: Vec<u64> = vec![];
@@ -1005,7 +1071,22 @@ fn walk<R: RoleType, T: IsPacketId>(role: &'static str, ver: u8, steps: usize, r
                 0 | 1 | 2 => {
                     let dup = g.rng.chance(1, 2);
                     let t: &[u8] = *g.rng.pick(&[b"a" as &[u8], b"b"]);
-                    g.op(format!("recv {}", hex(&w_publish(v, pw, 2, dup, false, t, id, &[], b"q2"))));
+                    // v5.0: some carry an alias announcement / rebind, some are alias-only
+                    let (t, ps): (&[u8], Vec<P>) = if v == 5 {
+                        match g.rng.below(6) {
+                            0 | 1 => (t, vec![P::U16(35, 1)]),
+                            2 => (b"", vec![P::U16(35, 1)]),
+                            _ => (t, vec![]),
+                        }
+                    } else {
+                        (t, vec![])
+                    };
+                    let q = if v == 5 && g.rng.chance(1, 4) { 0 } else { 2 };
+                    g.op(format!("recv {}", hex(&w_publish(v, pw, q, dup && q > 0, false, t, if q > 0 { id } else { 0 }, &ps, b"q2"))));
+                    if !t.is_empty() && !ps.is_empty() && g.status() == "C" && g.rng.chance(1, 2) {
+                        // and at once a message that uses the binding just announced
+                        g.op(format!("recv {}", hex(&w_publish(v, pw, 0, false, false, b"", 0, &ps, b"q0"))));
+                    }
                 }
                 3 => {
                     let rc = if v == 5 { *g.rng.pick(&[None, Some(0u8), Some(0x10), Some(0x10), Some(0x80), Some(0x97)]) } else { None };
@@ -1032,9 +1113,47 @@ fn walk<R: RoleType, T: IsPacketId>(role: &'static str, ver: u8, steps: usize, r
         g.force_persist = false;
         g.force_clean = None;
         g.force_own_rm = None;
+        g.force_own_tam = None;
     }
-    if g.rng.chance(1, 8) {
-        // resume from an export made by a previous process
+    if g.legal && g.rng.chance(1, 6) {
+        // directed: a persistent session with outbound packets stored and an inbound QoS 2 exchange
+        // open; the reconnect is refused once (the session must survive that), then accepted
+        let v = g.ver();
+        let pw = g.pw();
+        g.force_ok = true;
+        g.force_persist = true;
+        g.force_clean = Some(g.rng.chance(1, 2));
+        g.handshake();
+        if g.status() == "C" && v != 0 {
+            for q in [1u8, 2] {
+                let id = g.fresh_id();
+                g.op(format!("send {} {}", v, hex(&w_publish(v, pw, q, false, false, b"a", id, &[], b"s"))));
+                g.after_send(id);
+            }
+            g.op(format!("recv {}", hex(&w_publish(v, pw, 2, false, false, b"b", 1, &[], b"in"))));
+            g.op("closed".into());
+            g.my_ids.clear();
+            g.force_clean = Some(false);
+            g.force_rc = Some(if v == 5 { *g.rng.pick(&[0x80u8, 0x87, 0x88]) } else { *g.rng.pick(&[1u8, 2, 3, 5]) });
+            g.force_sp = Some(false);
+            g.handshake();
+            g.force_rc = None;
+            g.force_sp = None;
+            if g.status() != "D" {
+                g.op("closed".into());
+            }
+            g.handshake();
+            if g.status() == "C" {
+                g.op(format!("recv {}", hex(&w_publish(v, pw, 2, true, false, b"b", 1, &[], b"in"))));
+            }
+        }
+        g.inflight.clear();
+        g.force_ok = false;
+        g.force_persist = false;
+        g.force_clean = None;
+    }
+    if !g.started && g.rng.chance(1, 6) {
+        // resume from an export made by a previous process (before any connection of this object)
         for _ in 0..2 {
             g.misc_restore();
         }
@@ -1083,7 +1202,7 @@ fn reuse_trial<R: RoleType, T: IsPacketId>(role: &'static str, ver: u8, steps: u
     let focus = rng.below(6) as u8;
     let mut g = Gen::<R, T> {
         s: Sess::new(ver), rng, role, my_ids: vec![], inflight: vec![], rel_wait: vec![], peer_pubs: vec![], subs: vec![],
-        peer_mps: None, focus, legal: true, started: false, force_clean: None, force_ok: false, force_persist: false, force_ska: None, force_own_rm: None, force_peer_mps: None, force_peer_tam: None, boundary: false, plain_pub: false, force_sp: None,
+        peer_mps: None, focus, legal: true, started: false, force_clean: None, force_ok: false, force_persist: false, force_ska: None, force_own_rm: None, force_peer_mps: None, force_peer_tam: None, boundary: false, plain_pub: false, force_sp: None, force_rc: None, force_own_tam: None,
     };
     for f in ["off", "apr", "aping", "amap", "arep"] {
         if g.rng.chance(2, 5) {
@@ -1216,7 +1335,7 @@ fn reuse_trial<R: RoleType, T: IsPacketId>(role: &'static str, ver: u8, steps: u
 fn restore_trial<R: RoleType, T: IsPacketId>(role: &'static str, ver: u8, steps: usize, rng: &mut Rng, name: &str, out: &mut dyn Write) -> bool {
     let mut g = Gen::<R, T> {
         s: Sess::new(ver), rng, role, my_ids: vec![], inflight: vec![], rel_wait: vec![], peer_pubs: vec![], subs: vec![],
-        peer_mps: None, focus: 1, legal: true, started: false, force_clean: None, force_ok: false, force_persist: false, force_ska: None, force_own_rm: None, force_peer_mps: None, force_peer_tam: None, boundary: false, plain_pub: false, force_sp: None,
+        peer_mps: None, focus: 1, legal: true, started: false, force_clean: None, force_ok: false, force_persist: false, force_ska: None, force_own_rm: None, force_peer_mps: None, force_peer_tam: None, boundary: false, plain_pub: false, force_sp: None, force_rc: None, force_own_tam: None,
     };
     g.op("set apr 1".into());
     for f in ["off", "aping", "amap", "arep"] {
@@ -1361,7 +1480,7 @@ fn undet_trial<R: RoleType, T: IsPacketId>(role: &'static str, steps: usize, rng
     let focus = rng.below(6) as u8;
     let mut g = Gen::<R, T> {
         s: Sess::new(0), rng, role, my_ids: vec![], inflight: vec![], rel_wait: vec![], peer_pubs: vec![], subs: vec![],
-        peer_mps: None, focus, legal: true, started: false, force_clean: None, force_ok: false, force_persist: false, force_ska: None, force_own_rm: None, force_peer_mps: None, force_peer_tam: None, boundary: false, plain_pub: false, force_sp: None,
+        peer_mps: None, focus, legal: true, started: false, force_clean: None, force_ok: false, force_persist: false, force_ska: None, force_own_rm: None, force_peer_mps: None, force_peer_tam: None, boundary: false, plain_pub: false, force_sp: None, force_rc: None, force_own_tam: None,
     };
     let mut options = vec![];
     for f in ["off", "apr", "aping", "amap", "arep"] {
